@@ -22,7 +22,7 @@ def c03(tier, seed):
     vo, vcmd, vlog, _ = units_verus.run_unit("bf_alloc")
     obs += vo
     lo, lcmd, llog, _ = units_verus.run_unit("layout")
-    obs += units_verus.select(lo, r"::(pad_to_bitfield_unit|saw_bitfield_unit|padding_field|bitfield_unit|align_to_latest_field|saw_field_with_layout)::", None, keep_meta=False)
+    obs += units_verus.select(lo, r"::(pad_to_bitfield_unit|saw_bitfield_unit|padding_field|bitfield_unit|align_to_latest_field|saw_field_with_layout|member_layout_for_tracker)::", None, keep_meta=False)
     po, pcmd, plog, _ = units_verus.run_unit("packed")
     obs += units_verus.select(po, r"::CompInfo::is_packed::", None, keep_meta=False)
     so, scmd, slog, _ = units_verus.run_unit("bf_unit_start")
@@ -46,7 +46,7 @@ def c03(tier, seed):
             "bindgen/codegen/bitfield_unit.rs: get, set, raw_get, raw_set, get_bit, set_bit, raw_get_bit, raw_set_bit, extract_bit, change_bit (via callers), get_const, set_const, raw_get_const, raw_set_const",
             "bindgen/ir/comp.rs: bitfields_to_allocation_units (+ nested flush_allocation_unit), three contracts: (1) no clang offsets (class templates): every emitted bit-field satisfies the ABI placement rule, fields keep their order without overlap, offset_into_unit + width <= 8 * unit size; (2) clang offsets, every field ends at or after the earlier ones (structs): offset_into_unit + width <= 8 * unit size; (3) clang offsets otherwise (unions): witness of known finding F7",
             "bindgen/ir/comp.rs: CompInfo::is_packed (whether bit-fields are allocated with packed rules; callback iteration desugared by rule R16)",
-            "bindgen/codegen/struct_layout.rs: StructLayoutTracker::pad_to_bitfield_unit, saw_bitfield_unit (unit layout; the unit lands at the clang offset of its first bit-field), align_to_latest_field and saw_field_with_layout (the running offset that placement is computed from: never rounded up inside a packed record)",
+            "bindgen/codegen/struct_layout.rs: StructLayoutTracker::pad_to_bitfield_unit, saw_bitfield_unit (unit layout; the unit lands at the clang offset of its first bit-field), align_to_latest_field and saw_field_with_layout (the running offset that placement is computed from: never rounded up inside a packed record), the prelude of saw_field (member_layout_for_tracker, statements R18: the size a plain member adds to the running offset is its C size, also for an array of over-aligned elements - a later bit-field unit is padded from that offset)",
             "bindgen/codegen/mod.rs: the accessor-emitting statement of <Bitfield as FieldCodegen>::codegen and Bitfield::extend_ctor_impl (unit bf_accessors, rule R4q): getter, setter, raw getter, raw setter (wrapper-union and const-generic forms) and the constructor step all address the bit-field's own unit field, offset_into_unit and width, in that order",
             "bindgen/ir/comp.rs: CompInfo::compute_bitfield_units (unit bf_getters): the allocation of bit-field units runs with exactly the packing CompInfo::is_packed reports",
             "bindgen/ir/comp.rs: Bitfield::{offset, bitfield_width, is_public, offset_into_unit, width} (unit bf_getters): code generation reads the stored clang offset, width and offset-into-unit unchanged - for zero-width separators too",
@@ -180,7 +180,7 @@ def _verus_prop(prop, tier, seed, unit_filters, meta_extra, extra_obs=None):
 
 
 def c02(tier, seed):
-    return _verus_prop("C02", tier, seed, [("layout", None, None), ("prim_types", None, None), ("packed", None, None), ("repr", None, None), ("clang_layout", None, None), ("union_repr", None, None), ("builtin_ty", None, None), ("bf_alloc", r"::bitfields_to_allocation_units(@clang_offsets)?::", None)], {
+    return _verus_prop("C02", tier, seed, [("layout", None, None), ("prim_types", None, None), ("packed", None, None), ("repr", None, None), ("clang_layout", None, None), ("union_repr", None, None), ("builtin_ty", None, None), ("bf_alloc", r"::bitfields_to_allocation_units(@clang_offsets)?::", None), ("type_layout", None, None)], {
         "trusted_base": LAYOUT_TRUST,
         "functions_under_contract": LAYOUT_FNS + [
             "bindgen/codegen/helpers.rs: ast_ty::int_kind_rust_type, ast_ty::float_kind_rust_type (unit prim_types: fixed-width kinds get a Rust integer of the same width and sign; platform kinds the std::os::raw alias documented as equivalent; wchar_t / long double / __float128 a type of exactly the C size)",
@@ -189,6 +189,7 @@ def c02(tier, seed):
             "bindgen/clang.rs: Cursor::offset_of_field, Type::{clang_size_of, clang_align_of, size, align, fallible_size, fallible_align, fallible_layout} (unit clang_layout: the numbers handed to the IR are libclang's 64-bit values, unchanged, for every non-negative value; negative codes are errors; the two documented work-arounds)",
             "bindgen/codegen/mod.rs: utils::type_from_named (unit prim_types: the <stdint.h>/<stddef.h> typedef names map to the Rust primitive of the same width and signedness)",
             "bindgen/ir/context.rs: the kind-mapping statement of BindgenContext::build_builtin_ty (unit builtin_ty, let-statement R18): every libclang builtin type kind gets the bindgen kind of the same C type; complex only over floating types (found and repaired F12)",
+            "bindgen/ir/ty.rs: Type::layout (unit type_layout, shared with C06; rule R31): the layout every padding / alignment / blob computation starts from is clang's whenever clang computed one, and otherwise only an exact derivation",
             "bindgen/ir/comp.rs: CompInfo::is_rust_union and bindgen/codegen/mod.rs: wrap_union_field_if_needed (unit union_repr): a Rust `union` only for defined unions with --untagged-union whose members are all Copy or may be ManuallyDrop-wrapped; in it every member keeps the size/alignment of its C type; otherwise members are zero-sized markers over the blob of the tail statement",
             "bindgen/ir/comp.rs: bitfields_to_allocation_units (unit bf_alloc, shared with C03: its two struct contracts): a bit-field unit is as large as the bits allocated to it demand, which is what places the members that follow it",
             "bindgen/ir/comp.rs: CompInfo::already_packed (unit packed: Some(true) exactly when dropping `packed` moves no field), CompInfo::is_packed (attribute, or a member more aligned than the record, or a vtable in a 1-aligned record)"],
@@ -206,10 +207,11 @@ def c02(tier, seed):
 
 
 def c10(tier, seed):
-    return _verus_prop("C10", tier, seed, [("layout", r"::(blob|Layout::known_type_for_size|Layout::for_size_internal|Layout::for_size|integer_type|bitfield_unit|Layout::new|align_to|comp_tail_layout)::", None), ("opaque", None, None), ("vouch", None, None), ("impl_debug", r"::(array_arm|instantiation_arm)::", None), ("base_storage", None, None), ("trace_impls", r"::Type::should_be_traced_unconditionally::", None), ("lattice_constrain", r"::HasVtableAnalysis::", None), ("prim_types", r"::(BindgenContext::is_stdint_type|type_from_named)::", None),
+    return _verus_prop("C10", tier, seed, [("layout", r"::(blob|Layout::known_type_for_size|Layout::for_size_internal|Layout::for_size|integer_type|bitfield_unit|Layout::new|align_to|comp_tail_layout)::", None), ("opaque", None, None), ("opaque_alias", None, None), ("vouch", None, None), ("impl_debug", r"::(array_arm|instantiation_arm)::", None), ("base_storage", None, None), ("trace_impls", r"::Type::should_be_traced_unconditionally::", None), ("lattice_constrain", r"::HasVtableAnalysis::", None), ("prim_types", r"::(BindgenContext::is_stdint_type|type_from_named)::", None),
                                            ("constrain", r"::CannotDerive::constrain_type::", None), ("blocklist", None, None), ("repr", None, None)], {
         "trusted_base": LAYOUT_TRUST,
         "functions_under_contract": ["bindgen/ir/ty.rs: Type::should_be_traced_unconditionally (unit trace_impls, shared with C09): pointers, references, arrays, functions, compounds, instantiations and resolved references are traced even when the item is opaque, so an opaque type reachable only through an array is still emitted as a blob", "bindgen/ir/context.rs: BindgenContext::lookup_sizedness and bindgen/ir/comp.rs: Base::requires_storage, Base::is_virtual (unit base_storage): a base class gets a field of its own unless it is virtual or zero-sized, and a type outside the analysed set (a blocklisted class) counts as zero-sized only when the C compiler gives it no size or it is an empty class - so the use of a blocklisted type as a base still names it (found and repaired F28)", "bindgen/codegen/helpers.rs: blob, integer_type, bitfield_unit", "bindgen/ir/layout.rs: Layout::{known_type_for_size, new, for_size_internal, for_size}",
+                                     "bindgen/codegen/mod.rs: the aliased-type statement of the TemplateAlias | Alias arm of <Type as CodeGenerator>::codegen (unit opaque_alias, let-statement R18): an opaque typedef is an alias for the blob of the typedef's OWN layout (an `aligned` attribute on the typedef changes size and alignment) with no template parameters; a typedef of an inexpressible type falls back to the same blob",
                                      "bindgen/codegen/mod.rs: Item::process_before_codegen and <Item as CodeGenerator>::codegen (unit blocklist): nothing at all is emitted for a blocklisted item, for an item disabled for code generation, or a second time for the same item - whatever the per-kind generators would do",
                                      "bindgen/ir/item.rs: Item::is_blocklisted; <Item as IsOpaque>::is_opaque, <Type as IsOpaque>::is_opaque (unit opaque: opaque exactly by annotation, by an --opaque-type name match, or through the type: Opaque kind, opaque instantiation / compound / referenced type)",
                                      "bindgen/codegen/mod.rs: the tail of CompInfo::codegen (unit layout, statement R18): an opaque record with a known layout gets exactly one field, a blob of exactly the C size and alignment, and repr(align)",
@@ -258,13 +260,13 @@ def c12(tier, seed):
         term += _changed_clauses(u)
     units = term + [("gen_errors", None, None), ("layout", None, r"^(safety|decreases.*)$"), ("bf_alloc", None, r"^(safety|decreases.*)$"), ("macro_type", None, r"^safety$"),
              ("edges", None, r"^safety$"), ("derive_gate", None, r"^safety$"), ("derives", None, r"^safety$"), ("fn_abi", None, r"^(safety|post#3)$"), ("constrain", None, r"^safety$"), ("prim_types", None, r"^safety$"), ("packed", None, r"^(safety|decreases.*)$"), ("blocklist", None, r"^safety$"), ("has_float", None, r"^safety$"), ("has_tp_array", None, r"^safety$"), ("has_destructor", None, r"^safety$"), ("lattice_insert", None, r"^safety$"),
-             ("lattice_constrain", r"::constrain::", r"^safety$"), ("link_name", r"::names_will_be_identical_after_mangling::", r"^safety$"), ("eval_int", None, r"^safety$"), ("bf_unit_start", None, r"^safety$"), ("resolver", None, None), ("builtin_ty", None, r"^safety$"), ("char_macro", None, r"^safety$"), ("clang_layout", None, r"^safety$"), ("traversal", None, r"^safety$"), ("trace_impls", None, r"^safety$"), ("enum_consts", None, None), ("template_params", None, r"^safety$"), ("codegen_guards", None, None)]
+             ("lattice_constrain", r"::constrain::", r"^safety$"), ("link_name", r"::names_will_be_identical_after_mangling::", r"^safety$"), ("eval_int", None, r"^safety$"), ("bf_unit_start", None, r"^safety$"), ("resolver", None, None), ("builtin_ty", None, r"^safety$"), ("char_macro", None, r"^safety$"), ("clang_layout", None, r"^safety$"), ("traversal", None, r"^safety$"), ("trace_impls", None, r"^safety$"), ("enum_consts", None, None), ("template_params", None, r"^safety$"), ("codegen_guards", None, None), ("rust_mangle", None, None), ("typedef_methods", None, None)]
     return _verus_prop("C12", tier, seed, units, {
         "trusted_base": LAYOUT_TRUST + ["alloc::fmt::format stubbed in the from_str witness harnesses (message text irrelevant)"],
         "functions_under_contract": ["bindgen/lib.rs: the input-path checks of Bindings::generate (missing -> NotExist, directory -> FolderAsHeader, unreadable -> InsufficientPermissions; file system uninterpreted) and the per-diagnostic step of parse() (severity Error or Fatal -> ClangDiagnostic error) -- blocks extracted by rule R18, unit gen_errors"] + LAYOUT_FNS + ["bindgen/ir/comp.rs: bitfields_to_allocation_units (no-clang-offset mode)", "and the functions of units macro_type, edges, derive_gate, derives, fn_abi (see C05, C07-C09, C14)",
                                      "bindgen/ir/analysis/*.rs: every insert / forward / constrain of the seven analyses under contract answers `Changed` exactly when the fact it owns strictly moved up its lattice (the `Changed`/`Same` clauses of units lattice_insert, lattice_constrain, has_float, has_tp_array, has_destructor, constrain, template_params): with the driver theorem of unit analyze this is the termination argument of the fix-point loops",
                                      "bindgen/ir/context.rs: ItemResolver::resolve (unit resolver): the reference/alias-following loop TERMINATES on every finite IR, cyclic or not (decreases: items not yet seen), never indexes outside the item table, and returns an item of the table",
-                                     "bindgen/ir/context.rs: the kind-mapping statement of build_builtin_ty does not panic on any builtin kind (found and repaired F12: `_Complex int`)",
+                                     "bindgen/codegen/mod.rs: <Vtable as CodeGenerator>::codegen under --vtable-generation (unit typedef_methods: the guard closure of the `if` and the signature lookup of the slot generator, R18): every virtual method the guard lets through has a function type of its own, so the lookup finds one - no panic (found and repaired F40); that `iter().all(guard)` covers what `filter_map` visits is std's meaning, not under contract", "bindgen/ir/context.rs: BindgenContext::rust_mangle (unit rust_mangle; rule R32: &str / String as character sequences, the keyword list one uninterpreted predicate): the string that reaches proc_macro2::Ident::new (which panics on a non-identifier) contains no `@`, `?` or `$` at any position, whatever the C name contains; names that need no mangling are unchanged", "bindgen/ir/context.rs: the kind-mapping statement of build_builtin_ty does not panic on any builtin kind (found and repaired F12: `_Complex int`)",
                                      "bindgen/ir/function.rs: FunctionSig::abi never accepts an ABI that cannot be printed (ClangAbi::Unknown -> UnsupportedAbi; found and repaired F11: Function::codegen and <ClangAbi as ToTokens> panicked on it); bindgen/ir/var.rs: the character-literal arm of Var::parse (found and repaired F10)",
                                      "bindgen/codegen/mod.rs: the signature statement of Method::codegen_method and bindgen/ir/ty.rs: the constant-array arm of Type::from_clang_ty (unit codegen_guards): a method whose signature is not a function type (declared through a typedef) is left out, an array whose element type cannot be expressed gets opaque elements - neither aborts (found and repaired F29, F30)",
                                      "bindgen/codegen/mod.rs: the three naming statements of <Enum as CodeGenerator>::codegen (unit enum_consts, let-statements R18): the parent's canonical name is None exactly for top-level enums and neither `parent_canonical_name.as_ref().unwrap()` is reached with None; bindgen/ir/analysis/template_params.rs: UsedTemplateParameters::constrain and its helpers (unit template_params): the table `.expect()`s and the monotonicity `assert!` cannot fire given the table invariant",
@@ -286,7 +288,7 @@ INCRATE_TRUST = ["in-crate harness modules pulled in by cfg(kani) hook lines; Ty
 def c04(tier, seed):
     def extra():
         return units_incrate.run_spec(units_incrate.abi_spec())
-    return _verus_prop("C04", tier, seed, [("fnsig", None, None), ("ptr_lowering", None, None), ("fn_abi", r"::FunctionSig::(abi|is_variadic)::", None), ("link_name", None, None), ("method_wrapper", None, None), ("var_const", None, None), ("attrs", None, None), ("fn_args", None, None), ("mangling", None, None), ("builtin_ty", None, None)], {
+    return _verus_prop("C04", tier, seed, [("fnsig", None, None), ("ptr_lowering", None, None), ("fn_abi", r"::FunctionSig::(abi|is_variadic)::", None), ("link_name", None, None), ("method_wrapper", None, None), ("var_const", None, None), ("attrs", None, None), ("fn_args", None, None), ("mangling", None, None), ("builtin_ty", None, None), ("char_macro", r"::var_value@nonconst_initialised_F39::", None), ("typedef_methods", r"::fn_decl_signature::", None)], {
         "trusted_base": INCRATE_TRUST + ["calling-convention oracle: clang-c/Index.h CXCallingConv values x Rust reference ABI strings (kani_incrate/function_abi.rs)"],
         "functions_under_contract": ["bindgen/ir/function.rs: get_abi (Kani in-crate), FunctionSig::abi, FunctionSig::is_variadic (Verus unit fn_abi)",
                                      "bindgen/codegen/mod.rs: utils::fnsig_argument_type, utils::fnsig_return_ty_internal (Verus unit fnsig); the Pointer/Reference arm of <Type as TryToRustTy>::try_to_rust_ty (Verus unit ptr_lowering, block extracted by rule R18)",
@@ -295,7 +297,9 @@ def c04(tier, seed):
                                      "bindgen/codegen/mod.rs: the `let symbol = ..` statement of <Var as CodeGenerator>::codegen (Verus unit link_name, let-statement R18, verified against the contract of names_will_be_identical_after_mangling): an overridden link name is always spelled out with #[link_name] (found and repaired F13), otherwise the compiler's symbol is named unless it is the Rust name or its platform decoration",
                                      "bindgen/ir/function.rs: cursor_declares_other_function, args_from_ty_and_cursor (iterator pipeline turned into an index loop, rule R29), and the parameter-visitor closure, the `is_own_cursor` and the `args` statements of FunctionSig::from_ty (unit fn_args): ARITY - a function prototype gets exactly the parameters it declares, each of the declared type, and the parameters of an enclosing declaration (function returning a function pointer, pointer to such a function) are never taken for its own (found and repaired F21); the child visitor never recurses",
                                      "bindgen/ir/function.rs: cursor_mangling, is_itanium_thunk and bindgen/clang.rs: the ABI-kind statement of TargetInfo::new (unit mangling; while-let R19, str operations as Seq-specified env functions R21): of the symbols libclang lists for a C++ function the binding names the last one that is the function itself - for a destructor under the Itanium ABI the complete-object destructor (never the deleting one), never a this-adjusting or covariant-return thunk (found and repaired F23); the Microsoft rules apply only to *-msvc targets",
-                                     "bindgen/ir/context.rs: the kind-mapping statement of BindgenContext::build_builtin_ty (unit builtin_ty, shared with C02): a parameter or return value of a builtin C/C++ type gets the bindgen kind of that very type (char32_t is 32 bits wide, not 16)",
+                         "bindgen/codegen/mod.rs: the signature lookup of <Function as CodeGenerator>::codegen (unit typedef_methods, statements R18): a non-static member function declared through a typedef of a function type - whose function type has no `this` - is not declared at all (found and repaired F41: it was declared without its receiver)",
+            "bindgen/ir/var.rs: the value statement of Var::parse (unit char_macro, witness only): a non-const global must not become a Rust constant - known finding F39",
+            "bindgen/ir/context.rs: the kind-mapping statement of BindgenContext::build_builtin_ty (unit builtin_ty, shared with C02): a parameter or return value of a builtin C/C++ type gets the bindgen kind of that very type (char32_t is 32 bits wide, not 16)",
                                      "bindgen/clang.rs: the per-token predicate of Cursor::has_attrs (unit attrs, closure R18): a token of an unexposed attribute names `noreturn` / `_Noreturn` / `warn_unused_result` only when it is of the attribute's token kind and spells exactly that name",
                                      "bindgen/codegen/mod.rs: utils::names_will_be_identical_after_mangling (Verus unit link_name, all name lengths; std str/slice operations replaced by Seq-specified env functions, rule R21)"],
         "assumptions": ["get_abi: every u32 CXCallingConv value (loop-free, full domain)",
@@ -308,11 +312,12 @@ def c04(tier, seed):
 
 
 def c05(tier, seed):
-    return _verus_prop("C05", tier, seed, [("macro_type", None, None), ("eval_int", None, None), ("char_macro", None, None)], {
+    return _verus_prop("C05", tier, seed, [("macro_type", None, None), ("eval_int", None, None), ("char_macro", r"^(?!.*@nonconst_initialised_F39)", None), ("builtin_ty", None, None)], {
         "trusted_base": ["extraction rules R1-R11; env/macro_type_env.rs: uninterpreted option reads; assume_specification for i64::from(u8|u16|u32) (lossless widening)",
                          "C-model table kind_bits/kind_signed written from the kinds' names (contracts/macro_type.py)",
                          "env/eval_int_env.rs: each libclang evaluator entry point is a distinct uninterpreted function of the result handle (rule R20: `unsafe { f(x) }` -> `{ f(x) }`, FFI functions are safe stubs); an out-of-range `u64 as i64` cast is the same (unspecified but fixed) function on both sides of the contract"],
-        "functions_under_contract": ["bindgen/ir/var.rs: the function-like-macro guard of Var::parse (unit char_macro, statements R18 up to the use of the evaluated value: a function-like macro never reaches the expression evaluator, with or without callbacks; found and repaired F31) and the `is_float` statement (a floating-point constant only for float / double variables; found and repaired F32)", "bindgen/ir/var.rs: default_macro_constant_type", "bindgen/ir/int.rs: IntKind::is_signed, IntKind::known_size",
+        "functions_under_contract": ["bindgen/ir/var.rs: the function-like-macro guard of Var::parse (unit char_macro, statements R18 up to the use of the evaluated value: a function-like macro never reaches the expression evaluator, with or without callbacks; found and repaired F31) and the `is_float` statement (a floating-point constant only for float / double variables; found and repaired F32)", "bindgen/ir/var.rs: the value statement of Var::parse (unit char_macro, let-statement R18): the constant a variable's initialiser becomes has the shape of the variable's type (an integer or bool for integer types, a float for float / double, otherwise at most a string)", "bindgen/ir/var.rs: default_macro_constant_type", "bindgen/ir/int.rs: IntKind::is_signed, IntKind::known_size",
+                                     "bindgen/ir/context.rs: the kind-mapping statement of BindgenContext::build_builtin_ty (unit builtin_ty, shared with C02/C04): the type of a const variable and the underlying type of an enum get the bindgen integer kind of that very C type, so the Rust type has its width and sign (char32_t: 32 bits, unsigned)",
                                      "bindgen/clang.rs: EvalResult::kind, EvalResult::as_int (which libclang getter supplies the value of a const initialiser / fallback macro); Cursor::enum_val_signed / enum_val_unsigned / enum_val_boolean (enumerator values: the getter matching the signedness)",
                                      "bindgen/codegen/mod.rs: the repr-translation statement of <Enum as CodeGenerator>::codegen (unit macro_type, let-statement R18): the translated integer type has the enum's width and signedness",
                                      "bindgen/ir/enum_ty.rs: the value-selection statement of Enum::from_ty (let-statement, R18): bool enums their truth value, signed enums the signed getter, unsigned enums the unsigned getter",
@@ -324,10 +329,10 @@ def c05(tier, seed):
 
 
 def c06(tier, seed):
-    return _verus_prop("C06", tier, seed, [("layout_tests", None, None), ("clang_layout", None, None), ("target_sel", None, None), ("field_data", None, None)], {
+    return _verus_prop("C06", tier, seed, [("layout_tests", None, None), ("clang_layout", None, None), ("target_sel", None, None), ("field_data", None, None), ("type_layout", None, None)], {
         "trusted_base": ["extraction rules incl. R18 (closure and statement extraction) and span substitutions; env/layout_tests_env.rs: each assertion template (const-block / #[test] fn, offset_of! / addr_of! form) is an env constructor that records WHAT it asserts (field, number); message strings irrelevant",
                          "libclang's numbers (record size/alignment, field bit offsets) are the C compiler's for the selected target"],
-        "functions_under_contract": ["bindgen/ir/comp.rs: RawField::new and the getters of FieldData (unit field_data): the bit offset (and bit-field width) clang reported for a member is stored as given and handed to code generation as stored", "bindgen/lib.rs: the `is_host_build` statement and the `--target=` insertion statement of Bindings::generate (unit target_sel, statements R18): libclang is told the effective target, in front of the other arguments, whenever no explicit target was given and the effective target is not the host triple itself (so every number it reports is for the target the assertions are emitted for)", "bindgen/clang.rs: Cursor::offset_of_field and Type::fallible_{size,align,layout} (unit clang_layout: the asserted numbers are libclang's, without truncation)",
+        "functions_under_contract": ["bindgen/ir/ty.rs: Type::layout (unit type_layout; rule R31: its recursive calls are checked against the callee contract): the size and alignment handed to both assertion generators are clang's for the type whenever clang computed them, and otherwise only an exact derivation (the compound's own computation, a zero-length array, a pointer, the target of a resolved reference) - never the numbers of a different type such as the definition of an instantiation clang did not complete", "bindgen/ir/comp.rs: RawField::new and the getters of FieldData (unit field_data): the bit offset (and bit-field width) clang reported for a member is stored as given and handed to code generation as stored", "bindgen/lib.rs: the `is_host_build` statement and the `--target=` insertion statement of Bindings::generate (unit target_sel, statements R18): libclang is told the effective target, in front of the other arguments, whenever no explicit target was given and the effective target is not the host triple itself (so every number it reports is for the target the assertions are emitted for)", "bindgen/clang.rs: Cursor::offset_of_field and Type::fallible_{size,align,layout} (unit clang_layout: the asserted numbers are libclang's, without truncation)",
                                      "bindgen/codegen/mod.rs: the per-member offset-assertion generator (filter_map closure) and the layout-assertion block of <CompInfo as CodeGenerator>::codegen (both extracted by rule R18); <TemplateInstantiation as CodeGenerator>::codegen (whole function)"],
         "assumptions": [
             "for structs/unions generated by CompInfo::codegen: with layout tests on, a known layout and no forward declaration exactly one assertion item is emitted; it asserts the size and the alignment libclang reported and embeds one offset assertion for every named data member with a known offset (= clang's bit offset / 8), none for bit-field units, none at all for opaque types; with layout tests off, nothing is emitted",
